@@ -32,6 +32,16 @@ impl Amt {
             5 => (1 + m % 1000) * 1_000_000_000_000_000,
             6 => pool.saturating_mul(m % 2001) / 1000,
             7 => (pool + (m % 5)).saturating_sub(2),
+            // log-uniform magnitude with all low bits populated (non-round values up to 2^60 > 10^18)
+            9 => {
+                let mut z = (m as u64).wrapping_add(0x9E37_79B9_7F4A_7C15);
+                z = (z ^ (z >> 30)).wrapping_mul(0xBF58_476D_1CE4_E5B9);
+                z = (z ^ (z >> 27)).wrapping_mul(0x94D0_49BB_1331_11EB);
+                z ^= z >> 31;
+                let e = (m % 60) as u32 + 1;
+                let top = 1u128 << e;
+                (top | (z as u128 & (top - 1))).min(E18 - (m % 7) as u128)
+            }
             _ => 1 + m % 1_000_000,
         };
         v.clamp(1, E18)
@@ -41,7 +51,7 @@ impl Amt {
 pub fn amt_strategy() -> BoxedStrategy<Amt> {
     prop_oneof![
         2 => Just(0u8), 3 => Just(1u8), 4 => Just(2u8), 3 => Just(3u8), 2 => Just(4u8), 1 => Just(5u8),
-        2 => Just(6u8), 1 => Just(7u8), 2 => Just(8u8),
+        2 => Just(6u8), 1 => Just(7u8), 2 => Just(8u8), 2 => Just(9u8),
     ]
     .prop_flat_map(|class| (Just(class), any::<u32>()))
     .prop_map(|(class, mant)| Amt { class, mant })
